@@ -5,8 +5,8 @@ import (
 
 	"berty.tech/go-orbit-db/iface"
 	"berty.tech/go-orbit-db/internal/vstub"
-	"berty.tech/go-orbit-db/stores/basestore"
 	"berty.tech/go-orbit-db/internal/vstubodb"
+	"berty.tech/go-orbit-db/stores/basestore"
 	"berty.tech/go-orbit-db/stores/operation"
 )
 
@@ -84,12 +84,10 @@ func VerifC01KV() {
 		kvSameMap(b.Store.(*orbitDBKeyValue).All(), kvReplay(b), "C06 view of writer b equals replay of its log")
 	}
 	// everybody ends up with the same set of entries, by different routes
-	a.SyncFrom(b)
-	b.SyncFrom(a)
-	// a fresh replica receives the same entries by another route: manual sync,
-	// load from a's disk, or a snapshot saved by a
-	route := vstub.NdChoice("route", 3)
-	r := vstubodb.FreshFrom(NewOrbitDBKeyValue, a, route, func(ctx context.Context, st iface.Store) error {
+	// a and b merge; a third replica receives the same entries by another route:
+	// manual sync in one batch, load from a's disk, a snapshot saved by a, or the
+	// two branches in separate batches followed by a restart from its own disk
+	r, restartBefore, restartAfter := vstubodb.Converge(NewOrbitDBKeyValue, a, b, func(ctx context.Context, st iface.Store) error {
 		_, err := basestore.SaveSnapshot(ctx, st)
 		return err
 	})
@@ -97,6 +95,7 @@ func VerifC01KV() {
 		return
 	}
 	vstub.Cover("converged")
+	vstub.Assert(vstubodb.SameStrings(restartBefore, restartAfter), "C01 a replica restarted from its own disk holds the log it held before")
 	vstub.Assert(vstubodb.SameStrings(a.Hashes(), b.Hashes()), "C01 writers a and b list the same entries in the same order")
 	vstub.Assert(vstubodb.SameStrings(a.Hashes(), r.Hashes()), "C01 fresh replica lists the same entries in the same order")
 	ref := kvReplay(r)
